@@ -8,7 +8,8 @@ def tasks(tier):
     return (contract_tasks("contracts.scheduler", "C16", tier=tier) + contract_tasks("contracts.sim_process", "C16", tier=tier)
             + contract_tasks("contracts.progress", "C16", tier=tier) + lemma_tasks("contracts.progress", "C16")
             + contract_tasks("contracts.connect", "C16", tier=tier) + other_tasks("contracts.dataplane_bounded", "C16", "bounded")
-            + other_tasks("contracts.determinism_bounded", "C16", "bounded"))
+            + other_tasks("contracts.determinism_bounded", "C16", "bounded")
+            + contract_tasks("contracts.tiered_time", "C08"))
 
 
 TRUSTED_BASE = TRUSTED_CORE
